@@ -38,7 +38,7 @@ def _run_one(args):
     t0 = time.time()
     out = dict(prop=prop, harness=name, targets=spec['targets'], finding=spec['finding'], expect=spec['expect'], obligations=[],
                status='ok', executed={}, paths=0, doc=spec['doc'])
-    timeout = int(os.environ.get("PVC_TIMEOUT_MS", 0)) or spec["timeout"] or (30000 if tier == "quick" else 240000)
+    timeout = int(os.environ.get("PVC_TIMEOUT_MS", 0)) or spec["timeout"] or (12000 if tier == "quick" else 120000)
     ctx = Context(prop, name, mode='refute' if sizes else 'proof', sizes=sizes or {})
     progs = []
 
@@ -74,8 +74,15 @@ def _run_one(args):
     if not obls:
         out['status'] = 'error'
         out['reason'] = 'harness generated zero obligations'
+    n_bad = 0
+    max_bad = int(os.environ.get('PVC_MAX_FAILED', '4'))
     for nm, group in merged.items():
         rec = dict(name=nm, kind=group[0].kind, line=group[0].line, paths=len(group), status='discharged', backend=None, time=0.0)
+        if n_bad >= max_bad and spec['expect'] != 'refuted':
+            # fail fast: this harness already has several undischarged obligations; the rest are not attempted (reported as undecided)
+            rec.update(status='unknown', reason=f'not attempted: {n_bad} obligations of this harness already failed')
+            out['obligations'].append(rec)
+            continue
         for ob in group:
             if z3.is_true(ob.goal):
                 rec['backend'] = rec['backend'] or 'trivial'
@@ -92,6 +99,8 @@ def _run_one(args):
                 break
             rec['status'] = 'unknown'
             rec['reason'] = r.get('reason')
+        if rec['status'] != 'discharged':
+            n_bad += 1
         out['obligations'].append(rec)
     if obls and not vac_checked:
         # satisfiability of the hypotheses of the last path (requires-vacuity guard)
@@ -116,7 +125,7 @@ def run_property(prop, tier='quick', only=None, jobs=None, sizes=None):
     args = [(prop, n, tier, sizes) for n in names]
     if jobs == 1 or len(args) <= 1:
         return [_run_one(a) for a in args]
-    wall = int(os.environ.get('PVC_HARNESS_WALL_S', '600' if tier == 'quick' else '2400'))
+    wall = int(os.environ.get('PVC_HARNESS_WALL_S', '420' if tier == 'quick' else '2400'))
     ctxm = mp.get_context('spawn')
     out = []
     with ctxm.Pool(jobs, maxtasksperchild=1) as pool:
